@@ -85,7 +85,7 @@ def unify(a, b):
         return len(a[1]) == len(b[1]) and all(unify(x, y) for x, y in zip(a[1], b[1]))
     if a[0] == 'fn':
         return len(a[1]) == len(b[1]) and all(unify(x, y) for x, y in zip(a[1], b[1])) and unify(a[2], b[2])
-    if a[0] == 'struct':
+    if a[0] in ('struct', 'enum'):
         return a[1] == b[1]
     return True
 
@@ -131,6 +131,20 @@ def lean_type(t, structs):
         return 'Array Bool'
     if k == 'rng':
         return 'List Bool'
+    if k == 'enum':
+        return t[1]
+    if k == 'char':
+        return 'Char'
+    if k == 'chars':
+        return 'List Char'
+    if k == 'fmtr':
+        return 'String'
+    if k == 'fmterr':
+        return 'Unit'
+    if k == 'parseerr':
+        return 'Rust.ParseIntError'
+    if k == 'utf8err':
+        return 'Rust.Utf8Error'
     if k in ('reader', 'writer', 'ioerr', 'errkind'):
         return {'reader': 'Rust.Reader', 'writer': 'Rust.Writer', 'ioerr': 'Rust.IoError', 'errkind': 'Rust.ErrorKind'}[k]
     if k == 'ordering':
